@@ -200,15 +200,15 @@ macro_rules! np_uo {
     };
 }
 //# funcs=UserOperation::decode dispatch, message types 0x00-0x05; bound=input<=10 bytes; stubs=S3,S4
-np_uo!(c06_t_np_userop_00_05, 10, 13, [0x00, 0x01, 0x02, 0x03, 0x04, 0x05]);
+np_uo!(c06_x_np_userop_00_05, 10, 13, [0x00, 0x01, 0x02, 0x03, 0x04, 0x05]);
 //# funcs=UserOperation::decode dispatch, message types 0x06-0x0B; bound=input<=10 bytes; stubs=S3,S4
-np_uo!(c06_t_np_userop_06_0b, 10, 13, [0x06, 0x07, 0x08, 0x09, 0x0A, 0x0B]);
+np_uo!(c06_x_np_userop_06_0b, 10, 13, [0x06, 0x07, 0x08, 0x09, 0x0A, 0x0B]);
 //# funcs=UserOperation::decode dispatch, message types 0x10-0x21; bound=input<=10 bytes; stubs=S3,S4
-np_uo!(c06_t_np_userop_10_21, 10, 13, [0x10, 0x11, 0x20, 0x21]);
+np_uo!(c06_x_np_userop_10_21, 10, 13, [0x10, 0x11, 0x20, 0x21]);
 //# funcs=UserOperation::decode dispatch, message types 0x30-0x39; bound=input<=10 bytes; stubs=S3
-np_uo!(c06_t_np_userop_30_39, 10, 13, [0x30, 0x31, 0x38, 0x39]);
+np_uo!(c06_x_np_userop_30_39, 10, 13, [0x30, 0x31, 0x38, 0x39]);
 //# funcs=UserOperation::decode dispatch, message types 0x40-0x46; bound=input<=10 bytes; stubs=S3,S4
-np_uo!(c06_t_np_userop_40_46, 10, 13, [0x40, 0x41, 0x42, 0x43, 0x44, 0x45, 0x46]);
+np_uo!(c06_x_np_userop_40_46, 10, 13, [0x40, 0x41, 0x42, 0x43, 0x44, 0x45, 0x46]);
 //# funcs=UserOperation::decode: wrong identifier or unknown message type is an error; bound=5 symbolic octets; stubs=S3
 #[kani::proof]
 #[kani::unwind(8)]
@@ -243,7 +243,7 @@ fn operations_case<const N: usize>(d: u8) {
 #[kani::unwind(14)]
 #[kani::stub(std::fmt::format, fmt_stub)]
 #[kani::stub(<cfdp_core::pdu::MetadataTLVFieldCode as std::fmt::Display>::fmt, tlv_code_display_stub)]
-fn c06_t_np_operations() {
+fn c06_x_np_operations() {
     operations_case::<12>(0x04);
     operations_case::<4>(0x06);
     operations_case::<3>(0x09);
@@ -333,7 +333,7 @@ where
 #[kani::stub(std::fmt::format, fmt_stub)]
 #[kani::stub(<cfdp_core::pdu::MetadataTLVFieldCode as std::fmt::Display>::fmt, tlv_code_display_stub)]
 #[kani::stub(core::str::from_utf8, str_from_utf8_stub)]
-fn c06_t_shape_filestore() {
+fn c06_x_shape_filestore() {
     for (l1, l2) in [(0usize, 0usize), (1, 3), (3, 1)] {
         canon_shape_p(gen::fs_request(l1, l2));
         canon_shape_p(gen::fs_response(l1, l2, l2.min(1)));
@@ -345,7 +345,7 @@ fn c06_t_shape_filestore() {
 #[kani::stub(std::fmt::format, fmt_stub)]
 #[kani::stub(<cfdp_core::pdu::MetadataTLVFieldCode as std::fmt::Display>::fmt, tlv_code_display_stub)]
 #[kani::stub(core::str::from_utf8, str_from_utf8_stub)]
-fn c06_t_shape_finished() {
+fn c06_x_shape_finished() {
     let mut k = 0;
     while k <= 1 {
         let mut resp = Vec::new();
@@ -369,7 +369,7 @@ fn c06_t_shape_finished() {
 #[kani::stub(std::fmt::format, fmt_stub)]
 #[kani::stub(<cfdp_core::pdu::MetadataTLVFieldCode as std::fmt::Display>::fmt, tlv_code_display_stub)]
 #[kani::stub(core::str::from_utf8, str_from_utf8_stub)]
-fn c06_t_shape_metadata() {
+fn c06_x_shape_metadata() {
     let flag = gen::fss();
     for (l1, l2, o) in [(0usize, 0usize, 0u8), (1, 1, 1), (3, 1, 2)] {
         let opts = match o {
@@ -440,7 +440,7 @@ nak_h!(c06_t_canon_nak_large_32, 32, FileSizeFlag::Large);
 #[kani::proof]
 #[kani::unwind(36)]
 #[kani::stub(std::fmt::format, fmt_stub)]
-fn c06_t_canon_nak_more() {
+fn c06_x_canon_nak_more() {
     nak_case::<0>(FileSizeFlag::Small);
     nak_case::<7>(FileSizeFlag::Small);
     nak_case::<9>(FileSizeFlag::Small);
@@ -497,7 +497,7 @@ eof_h!(c06_t_canon_eof_small_13, 13, FileSizeFlag::Small);
 #[kani::unwind(22)]
 #[kani::stub(std::fmt::format, fmt_stub)]
 #[kani::stub(<cfdp_core::pdu::MetadataTLVFieldCode as std::fmt::Display>::fmt, tlv_code_display_stub)]
-fn c06_t_canon_eof_more() {
+fn c06_x_canon_eof_more() {
     eof_case::<13>(FileSizeFlag::Large);
     eof_case::<16>(FileSizeFlag::Large);
     eof_case::<19>(FileSizeFlag::Large);
